@@ -1,0 +1,95 @@
+//go:build verif
+
+// Read-only introspection of store layouts for the runtime monitors kept in
+// /verif. This file is only compiled with the `verif` build tag; it adds no
+// state and changes no behaviour.
+
+package store
+
+// VerifLayout describes the internal representation of a store at one point in
+// time. Fields that do not apply to a store kind are left at their zero value.
+type VerifLayout struct {
+	Kind string // "dense", "sparse", "paginated", "collapsing_lowest", "collapsing_highest", "unknown"
+
+	// dense family
+	BinsLen  int
+	BinsCap  int
+	Offset   int
+	MinIndex int
+	MaxIndex int
+
+	// collapsing stores
+	MaxNumBins  int
+	IsCollapsed bool
+
+	// buffered paginated store
+	BufferLen            int
+	BufferCap            int
+	BufferSorted         bool
+	PagesLen             int
+	AllocatedPages       int
+	MinPageIndex         int
+	PagesUnused          bool
+	CompactionTriggerLen int
+
+	// sparse store
+	MapLen int
+}
+
+func verifDenseLayout(kind string, s *DenseStore) VerifLayout {
+	return VerifLayout{
+		Kind:     kind,
+		BinsLen:  len(s.bins),
+		BinsCap:  cap(s.bins),
+		Offset:   s.offset,
+		MinIndex: s.minIndex,
+		MaxIndex: s.maxIndex,
+	}
+}
+
+// VerifLayoutOf returns the current layout of s without modifying it.
+func VerifLayoutOf(s Store) VerifLayout {
+	switch t := s.(type) {
+	case *DenseStore:
+		return verifDenseLayout("dense", t)
+	case *CollapsingLowestDenseStore:
+		l := verifDenseLayout("collapsing_lowest", &t.DenseStore)
+		l.MaxNumBins = t.maxNumBins
+		l.IsCollapsed = t.isCollapsed
+		return l
+	case *CollapsingHighestDenseStore:
+		l := verifDenseLayout("collapsing_highest", &t.DenseStore)
+		l.MaxNumBins = t.maxNumBins
+		l.IsCollapsed = t.isCollapsed
+		return l
+	case *SparseStore:
+		return VerifLayout{Kind: "sparse", MapLen: len(t.counts)}
+	case *BufferedPaginatedStore:
+		allocated := 0
+		for _, p := range t.pages {
+			if len(p) > 0 {
+				allocated++
+			}
+		}
+		sorted := true
+		for i := 1; i < len(t.buffer); i++ {
+			if t.buffer[i-1] > t.buffer[i] {
+				sorted = false
+				break
+			}
+		}
+		return VerifLayout{
+			Kind:                 "paginated",
+			BufferLen:            len(t.buffer),
+			BufferCap:            cap(t.buffer),
+			BufferSorted:         sorted,
+			PagesLen:             len(t.pages),
+			AllocatedPages:       allocated,
+			MinPageIndex:         t.minPageIndex,
+			PagesUnused:          t.minPageIndex == maxInt,
+			CompactionTriggerLen: t.bufferCompactionTriggerLen,
+		}
+	default:
+		return VerifLayout{Kind: "unknown"}
+	}
+}
